@@ -201,15 +201,40 @@ Theorem C12_enum_names_to_numbers : forall env names zs n,
 Proof. exact enum_numbers_sem. Qed.
 Print Assumptions C12_enum_names_to_numbers.
 
-(* the writer model's integer switch is the one in fields.go (regenerated table) *)
+(* the writer model is the code of fields.go: every regenerated fact is compared with
+   what the MODEL FUNCTION does on probe inputs (write_int_rules, bound_ok, wrap_array,
+   wrap_map, write_field) — an edit of a Go branch breaks one of these at build time *)
 Theorem C12_writer_table_agrees :
+  (* integer rules: per format and bound, the rule field each branch assigns *)
   forallb (fun a => match a with
                     | (k, is_max, _, _, _) =>
                         forallb (fun flag => rfield_eqb (arm_rule a flag) (model_rule k is_max flag)) flag_values
                     end) RulesGen.writer_int_arms = true
-  /\ RulesGen.writer_array_cond = RulesGen.ArrItemsOrRules
-  /\ RulesGen.writer_id62_published = true.
-Proof. exact (conj writer_int_arms_agree (conj writer_array_cond_agree writer_id62_agree)). Qed.
+  (* checkIntegerBounds: ranges per format and the three checks *)
+  /\ forallb range_ok RulesGen.writer_int_ranges = true
+  /\ RulesGen.writer_checks_minimum_range = model_checks_minimum_range
+  /\ RulesGen.writer_checks_maximum_range = model_checks_maximum_range
+  /\ RulesGen.writer_checks_order = model_checks_order
+  (* when repeated / map rules are emitted *)
+  /\ RulesGen.writer_array_cond = model_array_cond
+  /\ RulesGen.writer_map_cond = model_map_cond
+  (* key:id62 compiles to the published pattern *)
+  /\ RulesGen.writer_id62_published = model_id62_published
+  (* float rules refused; object / oneof / timestamp rules reduced to nothing *)
+  /\ RulesGen.writer_float_rules_refused = model_float_rules_refused
+  /\ RulesGen.writer_timestamp_rules_empty = model_timestamp_rules_empty.
+Proof.
+  exact (conj writer_int_arms_agree
+        (conj (proj1 writer_int_ranges_agree)
+        (conj (proj1 (proj2 writer_int_checks_agree))
+        (conj (proj1 (proj2 (proj2 writer_int_checks_agree)))
+        (conj (proj2 (proj2 (proj2 writer_int_checks_agree)))
+        (conj writer_array_cond_agree
+        (conj writer_map_cond_agree
+        (conj writer_id62_agree
+        (conj (proj1 writer_reduced_rules_agree)
+              (proj2 (proj2 (proj2 writer_reduced_rules_agree)))))))))))).
+Qed.
 Print Assumptions C12_writer_table_agrees.
 
 (* non-vacuity: an evaluable declaration with every kind of rule compiles, and
